@@ -307,7 +307,9 @@ def miss_kind(sent, ran, ns):
 def duplicates(R, rng, seed, aid):
     """two methods answering to the same name must be rejected when the application is constructed"""
     from spyne import Application, Service, rpc, Integer
-    for variant in ('same_name_two_services', 'operation_name_collides'):
+    from spyne import ComplexModel, Unicode
+    for variant in ('same_name_two_services', 'operation_name_collides', 'bare_same_name', 'qualified_in_message_name', 'in_message_name_collides',
+                    'bare_vs_wrapped'):
         R.evaluations += 1
 
         def mk(name, op=None):
@@ -318,8 +320,36 @@ def duplicates(R, rng, seed, aid):
             if op:
                 kw['_operation_name'] = op
             return rpc(**kw)(f)
+        def mkbare(name, argcls):
+            def f(ctx, req):
+                return 1
+            f.__name__ = name
+            return rpc(argcls, _returns=Integer, _body_style='bare')(f)
+
+        def mkin(name, inmsg):
+            def f(ctx):
+                return 1
+            f.__name__ = name
+            return rpc(_returns=Integer, _in_message_name=inmsg)(f)
         if variant == 'same_name_two_services':
             A = type('DupA', (Service,), {'get': mk('get')})
+            Bs = type('DupB', (Service,), {'get': mk('get')})
+        elif variant == 'bare_same_name':
+            # bare methods: the message is the argument class; two services, same method name, different argument classes
+            P1 = type('DupArg1', (ComplexModel,), {'__namespace__': M.TNS, 's': Unicode})
+            P2 = type('DupArg2', (ComplexModel,), {'__namespace__': M.TNS, 's': Unicode(max_len=9)})
+            A = type('DupA', (Service,), {'get': mkbare('get', P1)})
+            Bs = type('DupB', (Service,), {'get': mkbare('get', P2)})
+        elif variant == 'qualified_in_message_name':
+            # the same local in-message name, qualified with two foreign namespaces: requests name methods of the target namespace
+            A = type('DupA', (Service,), {'one': mkin('one', '{urn:vf:c11:one}status')})
+            Bs = type('DupB', (Service,), {'two': mkin('two', '{urn:vf:c11:two}status')})
+        elif variant == 'in_message_name_collides':
+            A = type('DupA', (Service,), {'get': mk('get')})
+            Bs = type('DupB', (Service,), {'fetch': mkin('fetch', 'get')})
+        elif variant == 'bare_vs_wrapped':
+            P1 = type('DupArg3', (ComplexModel,), {'__namespace__': M.TNS, 's': Unicode})
+            A = type('DupA', (Service,), {'get': mkbare('get', P1)})
             Bs = type('DupB', (Service,), {'get': mk('get')})
         else:
             A = type('DupA', (Service,), {'get': mk('get')})
